@@ -21,8 +21,10 @@ def sh(cmd, cwd=None, env=None, timeout=3600):
 def main():
     pid, k = sys.argv[1], sys.argv[2]
     also = [a for a in sys.argv[3:] if a.startswith('C')]
-    wt = Path(f'/tmp/seed/{pid}')
-    out = Path(f'/tmp/seed/{pid}.out')
+    root = os.environ.get('SEED_ROOT', '/tmp/seed')          # round 2: SEED_ROOT=/tmp/seed2 SEED_OFFSET=2
+    offset = int(os.environ.get('SEED_OFFSET', '0'))
+    wt = Path(f'{root}/{pid}')
+    out = Path(f'{root}/{pid}.out')
     patch, demo = out / f'patch{k}.diff', out / f'demo{k}.py'
     meta_in = json.loads((out / 'meta.json').read_text()) if (out / 'meta.json').exists() else {}
     ch = next((c for c in meta_in.get('changes', []) if c.get('patch') == patch.name), {})
@@ -62,7 +64,7 @@ def main():
     finally:
         sh('git -C /repo checkout -- .')
     res['caught_by'] = [k_ for k_, v in runs.items() if v['exit'] == 1]
-    d = V / 'seeded' / f'{pid}-{k}'
+    d = V / 'seeded' / f'{pid}-{int(k) + offset}'
     d.mkdir(parents=True, exist_ok=True)
     shutil.copy(patch, d / 'patch.diff'); shutil.copy(demo, d / 'demo.py')
     (d / 'meta.json').write_text(json.dumps(res, indent=1))
